@@ -235,7 +235,9 @@ def part_c(rep, hbin, tier, seed, cov):
                           "key_forms": hist.get("key-form", {}),
                           "descriptor_parser_reject_classes": hist.get("desc-reject", {}),
                           "wallet_policy_key_shapes": hist.get("wallet-policy-keys", {}),
-                          "deep_taproot_tree_shapes": sorted(hist.get("tr-deep", {}).keys())}
+                          "deep_taproot_tree_shapes": sorted(hist.get("tr-deep", {}).keys()),
+                          "directed_lock_values": sorted(hist.get("lock-value", {}).keys()),
+                          "directed_lock_reject_classes": hist.get("lock-reject", {})}
     cov.setdefault("samples", []).extend(re.findall(r"^SAMPLE (.*)$", p.stdout, flags=re.M)[:10])
     n = 0
     for m in re.finditer(r"^FAIL key=(\S+) what=(.*?) input=(.*)$", p.stdout, flags=re.M):
@@ -243,6 +245,9 @@ def part_c(rep, hbin, tier, seed, cov):
         n += 1
         obj = {"property": PID, "part": "round-trip", "key": key, "what": what, "input": inp, "seed": seed, "tier": tier}
         mctx = re.search(r"\((bare|legacy|segwitv0|tap)\)", what)
+        mlk = re.search(r"\(miniscript-(bare|legacy|segwitv0|tap)\)", what)
+        if key.startswith("rt:lock:") and mlk:
+            obj["kind_line"] = "%s %s" % ({"bare": "ms-bare", "legacy": "ms-legacy", "segwitv0": "ms-segwit", "tap": "ms-tap"}[mlk.group(1)], inp)
         if key.startswith("rt:tr-deep:"):
             obj["kind_line"] = "trdeep " + inp
         if key.startswith("rt:ms:") and mctx:
